@@ -317,9 +317,16 @@ func (st *state) checkHeld(step string) *core.Violation {
 			st.held = append(st.held, heldOutput{"Policy.MarshalCedar of " + string(id), o, string(o)})
 		}
 	}
+	// marshalling OTHER objects must not disturb the bytes already handed out
+	other := cedar.NewPolicySet()
+	other.Add("other", pool[len(st.model)%len(pool)].proto)
+	other.Add("other2", pool[(len(st.model)+3)%len(pool)].proto)
+	_ = other.MarshalCedar()
+	_, _ = other.MarshalJSON()
+	_ = pool[(len(st.model)+5)%len(pool)].proto.MarshalCedar()
 	for _, ho := range st.held {
 		if string(ho.out) != ho.copy {
-			return viol("output-aliased", "after %s: %s was overwritten by a later marshalling call", step, ho.what)
+			return viol("output-aliased", "after %s: %s was overwritten by a later marshalling call on another object:\n  now: %q\n  was: %q", step, ho.what, clipStr(string(ho.out)), clipStr(ho.copy))
 		}
 	}
 	return nil
@@ -680,6 +687,7 @@ func (st *state) apply(o op, r *core.Run) *core.Violation {
 func runHistory(ops []op, r *core.Run) *core.Violation {
 	st := newState()
 	for i, o := range ops {
+		r.Sim.Budget(30_000_000) // per step
 		step := fmt.Sprintf("step %d %s", i+1, o)
 		r.Logf("%s", step)
 		if v := st.apply(o, r); v != nil {
